@@ -129,6 +129,10 @@ func verifyFunction(w *World, fn *ssa.Function, spec *FuncSpec) (vc *VC) {
 		case *types.Slice:
 			vc.assume(fmt.Sprintf("(< (sl_ref %s) %s)", n, compInit("$alloc")))
 		}
+		if vc.isPooledPtr(p.Type()) {
+			// pooled parameters are owned on entry (obligation at every call site)
+			vc.assume(fmt.Sprintf("(or (= %s 0) (select %s %s))", n, compInit(vc.ownedComp()), n))
+		}
 	}
 	fr.curReach = "true"
 	fr.letVals = map[string]Term{}
@@ -192,6 +196,19 @@ func verifyFunction(w *World, fn *ssa.Function, spec *FuncSpec) (vc *VC) {
 					continue
 				}
 				vc.oblige("ensures", fr.tagsFor(en.Tags), ex.reach, g, "postcondition: "+en.Text, ex.pos, en)
+			}
+			for _, r := range ex.results {
+				if r.T != nil && vc.isPooledPtr(r.T) {
+					saved := fr.curReach
+					fr.curReach = ex.reach
+					fr.requireOwnedOrNil(r.S, "returned object", ex.pos, ex.st)
+					fr.curReach = saved
+				}
+			}
+			for _, rel := range spec.Releases {
+				if t, ok := ctx.env[rel]; ok {
+					vc.oblige("ownership", fr.ownTags(), ex.reach, fmt.Sprintf("(not (select %s %s))", vc.get(ex.st, vc.ownedComp()), t.S), "released object has been given up: "+rel, ex.pos, nil)
+				}
 			}
 			vc.cover(ex.reach, fmt.Sprintf("return at %s is reachable", vc.posOf(ex.pos)))
 		case "panic":
@@ -438,6 +455,9 @@ func (vc *VC) standaloneBody(ob *Oblig, withModel bool) string {
 func (vc *VC) sortedNotes() []string {
 	var out []string
 	for n := range vc.notes {
+		if strings.HasPrefix(n, "\x00") {
+			continue
+		}
 		out = append(out, n)
 	}
 	sort.Strings(out)
